@@ -528,6 +528,46 @@ def _rand_run(rng, maxbr, maxn):
             "bufsizes": _bufsizes(len(flow)), "copy_buf": rng.random() < 0.5}
 
 
+BUFARGS = [None, {"int": 1}, {"int": 2}, {"int": 3}, {"int": 1000}, {"int": 0}, {"int": -1}, {"float_int": 2},
+           {"float_int": 1}, {"float_int": 0}, {"float_frac": True}, {"bool": True}, {"bool": False}]
+
+
+def _rand_nest_any(rng, n):
+    """a nested Split with any mix of inner kinds: with a common fill type it is used through fill/compute/request,
+    otherwise the enclosing Split runs it once per block"""
+    r = rng.random()
+    if r < 0.25:
+        kinds = ("fc", "sum")
+    elif r < 0.45:
+        kinds = ("fr",)
+    else:
+        kinds = ("src", "fc", "fr", "sq", "sum")
+    inner = [_rand_spec(rng, n, kinds, pp=False) for _ in range(rng.randint(0 if r > 0.9 else 1, 3))]
+    return {"k": "nest", "inner": inner, "bufsize": rng.choice([1, 2, 1000, None])}
+
+
+def _rand_runx(rng, maxbr, maxn):
+    """exceptions of branches, the objects after the run, consecutive runs of one Split object, nested Splits run
+    per block, bufsize arguments that are not int"""
+    flows = [_rand_flow(rng, maxn) for _ in range(rng.choice([1, 1, 2, 3]))]
+    n = max(len(f) for f in flows)
+    brs = []
+    for _ in range(rng.randint(0, maxbr)):
+        if rng.random() < 0.2:
+            brs.append(_rand_nest_any(rng, n))
+            continue
+        sp = _rand_spec(rng, n, ("src", "fc", "fr", "sq"))
+        r = rng.random()
+        if r < 0.15 and sp["k"] in ("fc", "fr"):
+            sp["boom_fill"] = rng.randint(0, n + 1)
+        elif r < 0.3 and not (sp["k"] == "sq" and sp["v"] == "lam"):
+            sp["boom_gen"] = rng.randint(0, 3)
+        brs.append(sp)
+    r = rng.random()
+    bufarg = rng.choice(BUFARGS) if r < 0.15 else rng.choice([None, {"int": 1}, {"int": 2}, {"int": 3}, {"int": 1000}])
+    return {"op": "runx", "brs": brs, "flows": flows, "bufarg": bufarg, "copy_buf": rng.random() < 0.5}
+
+
 def _rand_blocks(rng, maxn):
     flow = _rand_flow(rng, maxn)
     blocks, i = [], 0
@@ -658,13 +698,13 @@ def gen_cases(ctx):
     import random
     if ctx.tier == "quick":
         exh = {0: 3, 1: 3, 2: 3, 3: 2, 4: 2}
-        n_run, n_meth, n_zip = 900, 500, 400
+        n_run, n_meth, n_zip, n_runx = 900, 500, 400, 900
         maxbr, maxn = 4, 8
     else:
         # the property's quantifier for N = 4: every branch list of length 0..4 over the four kinds, every
         # bufsize, both copy_buf, every stop index (lists of length 4 on flows of length 0..3; 0..3 on length 4)
         exh = {0: 4, 1: 4, 2: 4, 3: 4, 4: 3}
-        n_run, n_meth, n_zip = 30000, 8000, 6000
+        n_run, n_meth, n_zip, n_runx = 30000, 8000, 6000, 20000
         maxbr, maxn = 5, 8
     ctx.exhaustive = False  # the random part is sampled
 
@@ -676,6 +716,7 @@ def gen_cases(ctx):
         _repeat(n_run, _rand_run, sub(), maxbr, maxn),
         _repeat(n_meth, _rand_methods, sub(), 4, 7),
         _repeat(n_zip, _rand_zip, sub(), 4, 7),
+        _repeat(n_runx, _rand_runx, sub(), maxbr, 6),
         _init_cases(sub(), ctx.tier),
     ]
     return _roundrobin(streams)
@@ -699,6 +740,64 @@ def _run_split(specs, flow, bufsize, copy_buf):
     except Exception as e:
         return {"e": exc_name(e), "phase": "run", "out": canon(out), "inv": canon(_inv(log, len(specs)))}
     return {"out": canon(out), "inv": canon(_inv(log, len(specs)))}
+
+
+def _py_bufarg(a):
+    if a is None:
+        return None
+    if "int" in a:
+        return a["int"]
+    if "float_int" in a:
+        return float(a["float_int"])
+    if "float_frac" in a:
+        return 1.5
+    return a["bool"]
+
+
+def _state_of(el):
+    return el.state() if hasattr(el, "state") else None
+
+
+def _runx_on(split_or_none, specs, els, log, flows, runner):
+    """consecutive runs on the same objects; `runner(flow, out)` appends what is yielded to `out` and may raise"""
+    runs = []
+    for flow in flows:
+        start = len(log)
+        out = []
+        term = "done"
+        try:
+            runner(flow, out)
+        except AssertionError:
+            term = "assert"
+        except Exception as e:
+            last = log[-1][0] if len(log) > start else None
+            if last is not None and last >= 100:
+                last = last // 100 - 1  # an element of a nested Split: the exception leaves through that branch
+            term = ["raised", last, exc_name(e)]
+        sub = log[start:]
+        runs.append({"out": canon(out), "term": term,
+                     "inv": canon([[ev for (t, ev) in sub if t == i] for i in range(len(specs))]),
+                     "states": canon([_state_of(el) for el in els])})
+        if term != "done":
+            break
+    return runs
+
+
+def _runx_impl(case):
+    import lena.core
+    specs = case["brs"]
+    log = []
+    try:
+        els = [_mk_el(sp, i, log) for i, sp in enumerate(specs)]
+        objs = [_wrap(sp, el) for sp, el in zip(specs, els)]
+        s = lena.core.Split(objs, bufsize=_py_bufarg(case["bufarg"]), copy_buf=case["copy_buf"])
+    except Exception as e:
+        return {"init": {"e": exc_name(e)}}
+
+    def runner(flow, out):
+        for v in s.run(iter(flow)):
+            out.append(v)
+    return {"runs": _runx_on(s, specs, els, log, case["flows"], runner)}
 
 
 def _methods_impl(case):
@@ -882,6 +981,8 @@ def run_impl(case):
         return {"runs": [_run_split(case["brs"], case["flow"], bs, case["copy_buf"]) for bs in case["bufsizes"]]}
     if op == "methods":
         return _methods_impl(case)
+    if op == "runx":
+        return _runx_impl(case)
     if op == "zip":
         return _zip_impl(case)
     if op == "init":
@@ -910,6 +1011,9 @@ def model_requests(case):
                  "bufsizes": case["bufsizes"], "copy_buf": case["copy_buf"]}]
     if op == "methods":
         return [{"op": "methods", "brs": [_mspec(s) for s in case["brs"]], "blocks": case["blocks"]}]
+    if op == "runx":
+        return [{"op": "runx", "brs": [_mspecx(s) for s in case["brs"]], "flows": case["flows"],
+                 "bufarg": case["bufarg"], "copy_buf": case["copy_buf"]}]
     if op == "zip":
         if case.get("ctx"):
             return []  # values with context: outside the model (Zip._create_context is C07's algebra); oracle only
@@ -917,6 +1021,15 @@ def model_requests(case):
     if op == "init":
         return [{"op": "init", "objs": case["objs"], "bufsize": case["bufsize"], "is_list": case["is_list"]}]
     raise ValueError(op)
+
+
+def _mspecx(sp):
+    if sp["k"] == "nest":
+        return {"k": "nest", "inner": [_mspec(i) for i in sp["inner"]], "bufsize": sp.get("bufsize", 1000)}
+    m = _mspec(sp)
+    m.setdefault("boom_fill", None)
+    m.setdefault("boom_gen", None)
+    return m
 
 
 def _is_lam(sp):
@@ -960,6 +1073,56 @@ def _seen_by_element(sp, inv):
     return res
 
 
+def _strip_lam_states(specs, states):
+    """a lambda has no state to read: take the model's state of a lambda branch out of the comparison"""
+    res = []
+    for sp, st in zip(specs, states):
+        if _is_lam(sp):
+            res.append(None)
+        elif sp["k"] == "nest":
+            res.append({"inner": _strip_lam_states(sp["inner"], st["inner"])})
+        else:
+            res.append(st)
+    return res
+
+
+def _cmp_runx(case, res, m):
+    specs = case["brs"]
+    if "init" in res or "init" in m:
+        a, b = res.get("init", {}).get("e"), m.get("init", {}).get("e")
+        return None if a == b else f"construction: impl {res.get('init')} vs model {m.get('init')}"
+    if len(res["runs"]) != len(m["runs"]):
+        return f"impl made {len(res['runs'])} runs ({[r['term'] for r in res['runs']]}), model {len(m['runs'])} ({[r['term'] for r in m['runs']]})"
+    for k, (r, mr) in enumerate(zip(res["runs"], m["runs"])):
+        what = f"run {k} on {case['flows'][k]}"
+        if r["out"] != mr["out"]:
+            return f"{what}: impl yields {r['out']} vs model {mr['out']}"
+        mt = mr["term"]
+        it = r["term"]
+        if mt == "islice":
+            if not (isinstance(it, list) and it[2] == "Other:ValueError" and it[1] is None):
+                return f"{what}: model: islice rejects the bufsize (ValueError before any call); impl ended with {it}"
+        elif isinstance(mt, list):
+            if not (isinstance(it, list) and it[1] == mt[1] and it[2] == "Other:" + mt[2]):
+                return f"{what}: impl ended with {it} vs model {mt}"
+        elif it != mt:
+            return f"{what}: impl ended with {it} vs model {mt}"
+        for i, sp in enumerate(specs):
+            if _is_lam(sp):
+                continue
+            minv = _seen_by_element(sp, mr["inv"][i])
+            if r["inv"][i] != minv:
+                return f"{what}: branch {i} was invoked {r['inv'][i]} vs model {minv}"
+        ms = _strip_lam_states(specs, mr["states"])
+        if r["states"] != ms:
+            return f"{what}: objects afterwards: impl {r['states']} vs model {ms}"
+    if m.get("obj_runs") is not None:
+        outs = [r["out"] for r in res["runs"]]
+        if outs != m["obj_runs"][:len(outs)]:
+            return f"impl yields {outs} vs model Split.runObj {m['obj_runs']}"
+    return None
+
+
 def compare(case, res, replies):
     op = case["op"]
     m = replies[0]
@@ -971,6 +1134,8 @@ def compare(case, res, replies):
             if msg:
                 return msg
         return None
+    if op == "runx":
+        return _cmp_runx(case, res, m)
     if op == "methods":
         if "e" in res:
             return f"impl raised {res}; model {jdump(m)[:300]}"
@@ -1081,6 +1246,51 @@ def _oracle_run(case, res):
         for bs, r in zip(case["bufsizes"], res["runs"]):
             if r.get("out") != list(flow):
                 return f"[empty-split-identity] an empty Split must be the identity: bufsize={bs} gives {r.get('out')} for {flow}"
+    return None
+
+
+def _oracle_runx(case, res):
+    """the documented schedule, on the same kind of (possibly raising) fresh objects, run after run: what was
+    yielded before an exception of a branch is the schedule up to there, the exception propagates, and the
+    objects are left as the schedule leaves them"""
+    specs = case["brs"]
+    ba = case["bufarg"]
+    what = f"Split({[_show(s) for s in specs]}, bufsize={_py_bufarg(ba)!r}, copy_buf={case['copy_buf']})"
+    if ba is not None and ("float_int" in ba or "bool" in ba):
+        return None  # a bufsize that is not an int: not in the property's quantifier (model / correspondence only)
+    bad = ba is not None and ("float_frac" in ba or ba.get("int", 1) < 1)
+    if "init" in res:
+        e = res["init"]["e"]
+        if bad and e in ("LenaValueError", "LenaTypeError"):
+            return None
+        return f"[raised] {what} raised {e} at construction"
+    if bad:
+        return f"[init-bufsize] {what} must be rejected at construction"
+    bufsize = None if ba is None else ba["int"]
+    log = []
+    try:
+        els = [_mk_el(sp, i, log) for i, sp in enumerate(specs)]
+    except Exception as e:
+        return f"[nested-raised] {what}: building a nested Split raised {exc_name(e)}: {e}"
+
+    def runner(flow, out):
+        _ref_schedule(specs, els, bufsize, flow, out)
+    exp = _runx_on(None, specs, els, log, case["flows"], runner)
+    if len(exp) != len(res["runs"]):
+        return (f"[exception-schedule] {what}: {len(res['runs'])} runs were made ending {[r['term'] for r in res['runs']]}, "
+                f"the schedule makes {len(exp)} ending {[r['term'] for r in exp]}")
+    for k, (r, e) in enumerate(zip(res["runs"], exp)):
+        w = f"{what}, run {k} on {case['flows'][k]}"
+        if r["term"] != e["term"]:
+            return f"[exception-schedule] {w} ended with {r['term']}, the documented schedule on the same objects with {e['term']}"
+        if r["out"] != e["out"]:
+            cat = "schedule" if r["term"] == "done" else "exception-schedule"
+            return f"[{cat}] {w} yields {r['out']} (ending {r['term']}) but the documented schedule gives {e['out']}"
+        for i, sp in enumerate(specs):
+            if not _is_lam(sp) and r["inv"][i] != e["inv"][i]:
+                return f"[invocations] {w}: branch {i} ({_show(sp)}) received {r['inv'][i]}, the schedule invokes it as {e['inv'][i]}"
+        if r["states"] != e["states"]:
+            return f"[objects-after-run] {w}: the branch objects are left as {r['states']}, the schedule leaves {e['states']}"
     return None
 
 
@@ -1235,6 +1445,8 @@ def oracle(case, res):
         return _oracle_run(case, res)
     if op == "methods":
         return _oracle_methods(case, res)
+    if op == "runx":
+        return _oracle_runx(case, res)
     if op == "zip":
         return _oracle_zip(case, res)
     if op == "init":
@@ -1249,14 +1461,15 @@ def _show(sp):
     f = sp.get("form", "el")
     if k == "src":
         return f"src{sp['n']}"
+    boom = "".join(f",{b}={sp[b]}" for b in ("boom_fill", "boom_gen") if sp.get(b) is not None)
     if k == "fc":
-        return f"fc(stop={sp['stop']}{',late' if sp['late'] else ''}{',items' if sp['items'] else ''})/{f}"
+        return f"fc(stop={sp['stop']}{',late' if sp['late'] else ''}{',items' if sp['items'] else ''}{boom})/{f}"
     if k == "fr":
-        return f"fr(stop={sp['stop']}{',late' if sp['late'] else ''})/{f}"
+        return f"fr(stop={sp['stop']}{',late' if sp['late'] else ''}{boom})/{f}"
     if k == "sq":
-        return f"sq({sp['v']})/{f}"
+        return f"sq({sp['v']}{boom})/{f}"
     if k == "nest":
-        return "Split[" + ", ".join(_show(i) for i in sp["inner"]) + "]"
+        return "Split[" + ", ".join(_show(i) for i in sp["inner"]) + f"; bufsize={sp.get('bufsize', 1000)}]"
     return f"Sum/{f}"
 
 
@@ -1264,6 +1477,8 @@ def nontrivial(case, res):
     op = case["op"]
     if op == "run":
         return len(case["brs"]) >= 2 and any(r.get("out") for r in res["runs"])
+    if op == "runx":
+        return "init" in res or any(r["out"] or r["term"] != "done" for r in res["runs"])
     if op == "methods":
         return bool(res.get("fc") or res.get("fr") or (isinstance(res.get("call"), list) and res["call"]))
     if op == "zip":
@@ -1284,6 +1499,19 @@ def classify(case, res):
             labels.append("run:nested-split")
         forms = set(sp.get("form", "el") for sp in case["brs"])
         labels += [f"form:{f}" for f in sorted(forms)]
+        return labels
+    if op == "runx":
+        if "init" in res:
+            return ["runx:init-" + res["init"]["e"]]
+        labels = ["runx:runs=%d" % len(res["runs"])]
+        t = res["runs"][-1]["term"]
+        labels.append("runx:end=" + (t if isinstance(t, str) else t[2]))
+        if any(sp["k"] == "nest" and _kind(sp) == "sequence" for sp in case["brs"]):
+            labels.append("runx:nested-split-run-per-block")
+        if any(sp["k"] == "sq" and sp.get("v") == "cache" for sp in case["brs"]):
+            labels.append("runx:cache-like")
+        if case["bufarg"] is not None and "int" not in case["bufarg"]:
+            labels.append("runx:bufsize-not-int")
         return labels
     if op == "methods":
         if "e" in res:
@@ -1307,10 +1535,27 @@ def signature(case, failure):
 
 def shrink(case):
     op = case["op"]
-    if op in ("run", "methods", "zip"):
+    if op in ("run", "methods", "zip", "runx"):
         brs = case["brs"]
         for i in range(len(brs)):
             yield dict(case, brs=brs[:i] + brs[i + 1:])
+    if op == "runx":
+        fl = case["flows"]
+        for k in range(len(fl)):
+            if len(fl) > 1:
+                yield dict(case, flows=fl[:k] + fl[k + 1:])
+            for i in range(len(fl[k])):
+                yield dict(case, flows=fl[:k] + [fl[k][:i] + fl[k][i + 1:]] + fl[k + 1:])
+        if case["bufarg"] not in (None, {"int": 1}):
+            yield dict(case, bufarg={"int": 1})
+            yield dict(case, bufarg=None)
+        brs = case["brs"]
+        for i, sp in enumerate(brs):
+            for b in ("boom_fill", "boom_gen"):
+                if sp.get(b) is not None:
+                    yield dict(case, brs=brs[:i] + [{k: v for k, v in sp.items() if k != b}] + brs[i + 1:])
+                    if sp[b] > 0:
+                        yield dict(case, brs=brs[:i] + [dict(sp, **{b: sp[b] - 1})] + brs[i + 1:])
     if op == "run":
         flow = case["flow"]
         if len(case["bufsizes"]) > 1:
@@ -1330,7 +1575,7 @@ def shrink(case):
             yield dict(case, blocks=bl[:i] + bl[i + 1:])
             if len(bl[i]) > 1:
                 yield dict(case, blocks=bl[:i] + [bl[i][1:]] + bl[i + 1:])
-    if op == "run":
+    if op in ("run", "runx"):
         brs = case["brs"]
         for i, sp in enumerate(brs):
             if sp["k"] == "nest":
@@ -1342,7 +1587,7 @@ def shrink(case):
                         if k in inner[j] and inner[j][k] != v:
                             yield dict(case, brs=brs[:i] + [dict(sp, inner=inner[:j] + [dict(inner[j], **{k: v})]
                                                                 + inner[j + 1:])] + brs[i + 1:])
-    if op in ("run", "methods", "zip"):
+    if op in ("run", "methods", "zip", "runx"):
         brs = case["brs"]
         for i, sp in enumerate(brs):
             for k, v in (("form", "el"), ("late", False), ("items", False), ("stop", None)):
